@@ -11,6 +11,7 @@ Sub-workloads (one process per shard):
          requested root (simulated aggregator, interposed with -Wl,--wrap)
 """
 import os
+import shutil
 
 LEVEL = 'exploration'
 SHARDS = 16
@@ -21,25 +22,34 @@ def _collect(ctx, exe, arglists, timeout=1800):
                         lambda ia: ctx._run_driver_collect(exe, ia[1], timeout, '%s%d' % (ia[1][0], ia[0]), None))
 
 
-def run(ctx):
+def _driver(ctx):
+    """Build the driver and run a private copy: the shared build cache may be pruned / the driver rebuilt by a concurrent
+    run while a long (thorough) run still has stages to start."""
     exe = ctx.driver('c16_tree', ['c16_tree.c'], wraps=['KSI_Signature_signAggregatedWithPolicy'])
+    mine = os.path.join(ctx.work, 'c16_tree.exe')
+    shutil.copy2(exe, mine)
+    return mine
+
+
+def run(ctx):
+    exe = _driver(ctx)
     quick = ctx.tier == 'quick'
     only = os.environ.get('C16_ONLY', '').split(',') if os.environ.get('C16_ONLY') else None
     want = lambda m: only is None or m in only
     s = ctx.seed * 100000
-    n_rnd = 2000 if quick else 200000       # trees per shard (about 1000 trees/s per process under ASan)
-    n_bs = 80 if quick else 6000           # block cases per shard (each: 2-5 signed blocks of up to 40 leaves; about 25 cases/s)
+    n_rnd = 2000 if quick else 100000       # trees per shard (about 1000 trees/s per process under ASan on an idle core)
+    n_bs = 80 if quick else 4000           # block cases per shard (each: 2-5 signed blocks of up to 40 leaves; about 25 cases/s)
     n_carry = 60 if quick else 20000        # scenarios per process
     n_leak = 20 if quick else 2000
     n_exh = 64 if quick else 128            # exhaustive leaf counts 1..n_exh
-    ctx.rule = ('tree builder: EXHAUSTIVE leaf counts 1..64 x uniform level {0,1,7} x maxTreeLevel {off,1..12,250..255} (+ other hash '
+    ctx.rule = ('tree builder: EXHAUSTIVE leaf counts 1..%d x uniform level {0,1,7} x maxTreeLevel {off,1..12,250..255} (+ other hash '
                 'algorithms, metadata at every third position, a one-sibling leaf processor), every accepted leaf\'s chain folded; random trees of '
                 '1..300 leaves with 9 level profiles over 0..255 incl. invalid levels, metadata leaves at random positions, maxTreeLevel from '
                 '{<=0,1..12,13..249,250..255}; scenarios whose carry chain overflows level 255 at slot >= 1 with the maximum switched off. '
                 'block signer: random blocks of 1..40 leaves, masking on/off (iv 1..64 bytes, zero/random previous leaf), metadata none/all/mixed, '
                 'leaf levels, 0..3 earlier blocks (signed or not) each followed by KSI_BlockSigner_reset, compared byte for byte with a fresh '
                 'signer. distinct = distinct (algorithm, max level, processor, level/kind sequence) trees plus (tree, leaf) proofs, resp. '
-                '(block parameters, leaf) signatures, by 64-bit hash.')
+                '(block parameters, leaf) signatures, by 64-bit hash.') % n_exh
     ctx.assumptions = ['reference fold / forest / signature reader in harness/c16_tree.c on OpenSSL EVP (independent of libksi)',
                        'maxTreeLevel is set through the public struct in tree_builder.h (no setter exists)',
                        'bytes of a metadata leaf are taken from the library and validated structurally (padding TLV + reference-encoded fields)',
@@ -110,7 +120,7 @@ def run(ctx):
 def replay(ctx, path):
     """Re-run the case of a replay file: a tree spec (tree builder) or the arguments of a block signer case."""
     import re
-    exe = ctx.driver('c16_tree', ['c16_tree.c'], wraps=['KSI_Signature_signAggregatedWithPolicy'])
+    exe = _driver(ctx)
     txt = open(path, errors='replace').read()
     m = re.search(r'(a\d+,x-?\d+,p\d+,s\d+:[hm0-9,\-]+)', txt)
     if m:
